@@ -237,30 +237,37 @@ def startsSafe : Str → Prop
   | [] => True
   | e :: _ => isAsciiHexDigit e = false ∧ e ≠ ' ' ∧ e ≠ '\t' ∧ e ≠ '\n'
 
+theorem unescapeBody_nil : unescapeBody [] = [] := by simp [unescapeBody, unesc]
+
 theorem unescapeBody_cons_ne (c : Char) (cs : Str) (h : c ≠ '\\') :
-    unescapeBody (c :: cs) = c :: unescapeBody cs := by cases cs <;> simp [unescapeBody, h]
+    unescapeBody (c :: cs) = c :: unescapeBody cs := by cases cs <;> simp [unescapeBody, unesc, h]
 
 theorem unescapeBody_esc_nonhex (d : Char) (ds : Str) (h : isAsciiHexDigit d = false) :
-    unescapeBody ('\\' :: d :: ds) = d :: unescapeBody ds := by simp [unescapeBody, h]
+    unescapeBody ('\\' :: d :: ds) = d :: unescapeBody ds := by cases ds <;> simp [unescapeBody, unesc, h]
 
 theorem unescapeBody_esc_hex (d : Char) (ds : Str) (h : isAsciiHexDigit d = true) :
-    unescapeBody ('\\' :: d :: ds) = hexRun 5 (hexVal d) ds := by simp [unescapeBody, h]
+    unescapeBody ('\\' :: d :: ds) = hexRun 5 (hexVal d) ds := by cases ds <;> simp [unescapeBody, hexRun, unesc, h]
+
+theorem hexRun_nil (k acc : Nat) : hexRun k acc [] = [Char.ofNat acc] := by simp [hexRun, unesc]
 
 theorem hexRun_hex (k acc : Nat) (c : Char) (cs : Str) (h : isAsciiHexDigit c = true) :
-    hexRun (k + 1) acc (c :: cs) = hexRun k (acc * 16 + hexVal c) cs := by simp [hexRun, h]
+    hexRun (k + 1) acc (c :: cs) = hexRun k (acc * 16 + hexVal c) cs := by cases cs <;> simp [hexRun, unesc, h]
 
 theorem hexRun_stop (k acc : Nat) (r : Str) (h : startsSafe r) :
     hexRun k acc r = Char.ofNat acc :: unescapeBody r := by
   cases r with
-  | nil => cases k <;> simp [hexRun, unescapeBody]
+  | nil => simp [hexRun, unescapeBody, unesc]
   | cons e r' =>
     obtain ⟨h1, h2, h3, h4⟩ := h
-    cases k <;> simp [hexRun, h1, h2, h3, h4]
+    by_cases hb : e = '\\'
+    · subst hb
+      cases r' <;> simp [hexRun, unescapeBody, unesc, h1]
+    · cases r' <;> simp [hexRun, unescapeBody, unesc, h1, h2, h3, h4, hb]
 
 theorem hexRun_space (k acc : Nat) (r : Str) :
     hexRun k acc (' ' :: r) = Char.ofNat acc :: unescapeBody r := by
   have : isAsciiHexDigit ' ' = false := by decide
-  cases k <;> simp [hexRun, this]
+  cases r <;> simp [hexRun, unescapeBody, unesc, this]
 
 theorem hx_sq : isAsciiHexDigit '\'' = false := by decide
 theorem hx_dq : isAsciiHexDigit '"' = false := by decide
@@ -303,7 +310,7 @@ theorem dq_ne_bs : ('"' : Char) ≠ '\\' := by decide
 
 theorem unescapeBody_escBody (force : Bool) (s : Str) : unescapeBody (escBody force s) = s := by
   induction s with
-  | nil => simp [escBody, unescapeBody]
+  | nil => simp [escBody, unescapeBody_nil]
   | cons c cs ih =>
     simp only [escBody, escChar]
     by_cases a : c = '\''
@@ -324,7 +331,7 @@ theorem unescapeBody_escBody (force : Bool) (s : Str) : unescapeBody (escBody fo
               hexRun k acc (ctlSpace cs.head? ++ escBody force cs) = Char.ofNat acc :: cs := by
             intro k acc
             cases cs with
-            | nil => cases k <;> simp [escBody, hexRun, ctlSpace]
+            | nil => simp [escBody, hexRun_nil, ctlSpace]
             | cons n cs' =>
               by_cases hn : (isAsciiHexDigit n || n = ' ' || n = '\t') = true
               · simp only [ctlSpace, List.head?_cons, hn, if_true, List.singleton_append]
